@@ -313,7 +313,12 @@ func (s *Service) AddStreamHandlers(streams ...p2p.StreamDesc) {
 
 				// Keep track of the stream so we can cancel the handler if the peer disconnects.
 				ctx, cancel := context.WithCancel(s.baseCtx)
-				s.peers.addStream(peerID, streamlibp2p, cancel)
+				if !s.peers.addStream(peerID, streamlibp2p, cancel) {
+					// the peer disconnected since it was looked up
+					cancel()
+					_ = streamlibp2p.Reset()
+					return
+				}
 				defer s.peers.removeStream(peerID, streamlibp2p)
 
 				mtdtStream := newMetadataStream(streamlibp2p)
